@@ -12,6 +12,7 @@ import (
 
 	"pgregory.net/rapid"
 
+	"verifharness/gen"
 	"verifharness/iox"
 	"verifharness/refinflate"
 	"verifharness/stats"
@@ -50,6 +51,20 @@ func drawC04(t *rapid.T) C04Case {
 		for i := 0; i < n; i++ {
 			c.Chunks = append(c.Chunks, rapid.SampledFrom([]int{0, 1, 2, 3, 7, 8, 9, 15, 16, 17, 100, 327, 328, 329, 1000, 4095, 4096, 4097, 8192}).Draw(t, "ch"))
 		}
+	}
+	if rapid.IntRange(0, 5).Draw(t, "wb") == 0 {
+		// output just past the 64 KiB history buffer from low-entropy data (many packed
+		// multi-symbol entries), delivered a byte or two at a time: entries straddle both
+		// the output-window boundary and the end of the delivered input
+		n := 65536 + rapid.IntRange(0, 8192).Draw(t, "wbn")
+		data := gen.Recipe{Segs: []gen.Seg{{Kind: "rand", N: n, A: rapid.SampledFrom([]int{3, 4, 10, 16}).Draw(t, "wbalpha"), Seed: rapid.Uint64Range(0, 1<<20).Draw(t, "wbseed")}}}
+		set := WSetting{Ctor: "new", Level: rapid.SampledFrom([]int{-2, 1, 2, 6}).Draw(t, "wblevel")}
+		kind := "std"
+		if set.Level != 6 && rapid.Bool().Draw(t, "wbfast") {
+			kind = "fast"
+		}
+		c.Stream = StreamSpec{Kind: kind, Data: &data, Set: &set, Ops: []gen.Op{{K: "W", N: n}}}
+		c.Chunks = []int{rapid.SampledFrom([]int{1, 1, 2, 3}).Draw(t, "wbchunk")}
 	}
 	c.EOFWith = rapid.Bool().Draw(t, "eofwith")
 	c.Entry = rapid.SampledFrom([]string{"plain", "bufio-new", "bufio-reset", "bufio-reset"}).Draw(t, "entry")
